@@ -51,7 +51,13 @@ func main() {
 	}
 }
 
-const opTimeout = 300 * time.Second
+// per-case watchdog (seconds in VERIF_OP_TIMEOUT, default 90)
+var opTimeout = func() time.Duration {
+	if v, err := strconv.Atoi(os.Getenv("VERIF_OP_TIMEOUT")); err == nil && v > 0 {
+		return time.Duration(v) * time.Second
+	}
+	return 90 * time.Second
+}()
 
 func execAll(conc int, purity bool) {
 	sc := bufio.NewScanner(os.Stdin)
